@@ -193,11 +193,13 @@ func corrTasks(r *hx.Rand, o *hx.Opts) []*task {
 	}
 	for _, pair := range [][2]string{{"2", "10"}, {"2", "-2"}, {"-2", "3"}, {"-2", "-3"}, {"1.5", "3"}, {"0.001", "999999999"}, {"0.001", "33333"}, {"0.001", "33334"}, {"0.001", "-33334"},
 		{"0", "0"}, {"0", "5"}, {"0", "-5"}, {"5", "0"}, {"2", "0.5"}, {"-8", "0.5"}, {"9", "-0.5"}, {"2", "-100001"}, {"99", "-50001"}, {"99", "-50000"}, {"3", "-200"}, {"1E3", "3"}, {"1E3", "101"}, {"1E-100", "1.5"},
-		{"1234567890123456789012345678901234567890123456789012345678901234", "0.5"}, {"12345678901234567890123456789012345678901234567890123456789012345", "0.5"}, {"2", "1E3"}, {"2", "2.0"}, {"1.0", "200"}} {
+		{"1234567890123456789012345678901234567890123456789012345678901234", "0.5"}, {"12345678901234567890123456789012345678901234567890123456789012345", "0.5"}, {"2", "1E3"}, {"2", "2.0"}, {"1.0", "200"},
+		{"0.10", "60000"}, {"0.1", "60000"}, {"0.10", "3"}, {"10.0", "-3"}, {"10.0", "-60000"}, {"1E3", "2"}, {"1E3", "40"}, {"2.50", "0.5"}, {"0.00", "0"}, {"0.00", "2"}, {"100.00", "2"}, {"-2.500", "3"}} {
 		addCall("op", "op:^", []VSpec{named(pair[0], vNum(pair[0])), named(pair[1], vNum(pair[1]))})
 	}
-	// products whose decimal exponent leaves +-100000 (maxNumberExponent) are error values
-	for _, pair := range [][2]string{{"1E-60000", "1E-60000"}, {"1E60000", "1E60000"}, {"1E-60000", "1E-40000"}, {"1E-60000", "1E-40001"}, {"1E60000", "1E40001"}, {"1E-60000", "1E60000"}} {
+	// products whose decimal exponent leaves +-100000 (maxNumberExponent) are error values (whole numbers have
+	// canonical exponent 0: only decimal places count)
+	for _, pair := range [][2]string{{"0.10", "0.10"}, {"1E3", "1E3"}, {"0.00", "5"}, {"2.50", "4.0"}, {"100.00", "0.010"}, {"1E-60000", "1E-60000"}, {"1E-60000", "1E-40000"}, {"1E-60000", "1E-40001"}} {
 		addCall("op", "op:*", []VSpec{named(pair[0], vNum(pair[0])), named(pair[1], vNum(pair[1]))})
 	}
 	arityOf := map[string][2]int{"word": {2, 3}, "word_slice": {2, 4}, "field": {3, 3}, "text_slice": {2, 4}, "char": {1, 1}, "repeat": {2, 2}, "replace": {3, 4},
